@@ -16,6 +16,11 @@
 (* never precedes its compute, a hit returns the very value that was       *)
 (* stored, and objects never share cache entries.                          *)
 (*                                                                         *)
+(* A process-lifetime object (Tr.pre: the members of cr.cube.enums'          *)
+(* DIMENSION_TYPE are module-level singletons that every cube shares) may  *)
+(* have filled its cache before the recording started: the first event of  *)
+(* one of its properties may be a hit, which then fixes the stored value.  *)
+(*                                                                         *)
 (* One step consumes one event; the first event the model does not allow   *)
 (* rejects the trace, naming the event index.                              *)
 (***************************************************************************)
@@ -35,7 +40,8 @@ Stored(e) == IF Key(e) \in DOMAIN cache THEN cache[Key(e)] ELSE 0
 Allowed(e) ==
   CASE e.k = "compute" -> Stored(e) = 0 /\ e.v # 0
     [] e.k = "compute-none" -> Stored(e) = 0 /\ e.v = 0
-    [] e.k = "hit" -> Stored(e) # 0 /\ Stored(e) = e.v
+    [] e.k = "hit" -> \/ Stored(e) # 0 /\ Stored(e) = e.v
+                      \/ Tr.pre /\ Key(e) \notin DOMAIN cache /\ e.v # 0
     [] OTHER -> FALSE
 
 Init == tid \in 1..Len(Traces) /\ l = 1 /\ st = "run" /\ cache = << >>
@@ -44,7 +50,7 @@ Consume ==
   /\ st = "run" /\ l <= Len(Tr.ev)
   /\ IF Allowed(Ev)
      THEN /\ l' = l + 1 /\ st' = "run"
-          /\ cache' = IF Ev.k = "compute"
+          /\ cache' = IF Ev.k = "compute" \/ (Ev.k = "hit" /\ Key(Ev) \notin DOMAIN cache)
                       THEN [x \in DOMAIN cache \cup {Key(Ev)} |->
                               IF x = Key(Ev) THEN Ev.v ELSE cache[x]]
                       ELSE cache
